@@ -180,6 +180,49 @@ def _execute(spec, ses):
     for name, (e, fp0) in sorted(src_fps.items()):
         if fingerprint(e.operand("frame")._data) != fp0:
             return _done(_violation("source_mutated", "private_copy", "private source copy of %s changed" % name.split("-")[0]), ses, counters, spec)
+    # the other direction of the isolation: the user goes on modifying their own frame after handing it over;
+    # a collection built earlier must keep computing what it computed before (sources are a private copy)
+    if handed and spec.get("user_edits", True):
+        refs = {}
+        probes_ = {}
+        for t in recipe["targets"]:
+            d = det.get(str(t), {})
+            refs[t] = ses.compute(pool[t], refw, fuse=fuse, monitor=False, det=d)
+            # a projection of the target re-instantiates the source node inside the optimizer
+            if d.get("kind") == "frame":
+                try:
+                    c0 = list(pool[t].columns)[0]
+                    pr = pool[t][[c0]]
+                    probes_[t] = (pr, ses.compute(pr, refw, fuse=fuse, monitor=False, det=d))
+                except Exception:
+                    pass
+        edited = 0
+        for data, _ in handed:
+            try:
+                if isinstance(data, pd.DataFrame):
+                    for j in range(data.shape[1]):
+                        if pd.api.types.is_numeric_dtype(data.dtypes.iloc[j]) and not pd.api.types.is_bool_dtype(data.dtypes.iloc[j]):
+                            data.iloc[:, j] = data.iloc[:, j].to_numpy() * 0 + 977
+                            edited += 1
+                elif isinstance(data, pd.Series) and pd.api.types.is_numeric_dtype(data.dtype) and not pd.api.types.is_bool_dtype(data.dtype):
+                    data.iloc[:] = 977
+                    edited += 1
+            except Exception:
+                pass
+        counters["user_edits"] = edited
+        if edited:
+            for t in recipe["targets"]:
+                d = det.get(str(t), {})
+                for what, coll_, ref_ in [("target", pool[t], refs[t])] + ([("projection", probes_[t][0], probes_[t][1])] if t in probes_ else []):
+                    if ref_.cls != "ok":
+                        continue
+                    got = ses.compute(coll_, refw, fuse=fuse, monitor=False, det=d)
+                    counters["executions"] += 1
+                    if got.cls == "ok":
+                        eq, why = obs_equal(ref_.obs, got.obs)
+                        if not eq:
+                            return _done(_violation("source_not_private", what, "after the user edited the frame they had passed to from_pandas, the "
+                                                    "%s of an existing collection changed: %s" % (what, why), {"target": t}), ses, counters, spec)
     return _done({"verdict": "ok", "nontrivial": nontrivial}, ses, counters, spec)
 
 
